@@ -288,6 +288,7 @@ def run(repo='/repo', tier='quick'):
     c12j(db, res)
     c12k(db, res)
     c12l(db, res)
+    c12m(db, res)
     return res
 
 
@@ -733,3 +734,27 @@ def c12l(db, res):
             res.check(not bad, 'C12.l', name + ':bestfit-lookup', 'the lookup ends at the terminator or at a match',
                       '%s leaves its best-fit lookup on an ordering test (%s): a map installed with htp_config_set_bestfit_map() need not be sorted, and every mapping behind the first larger key is ignored' % (name, ' '.join(bad[0][0]) if bad else ''), bad[0][1] if bad else f.loc)
     res.floor('C12.l', 'best-fit lookup loops', n, 3)
+
+
+def c12m(db, res):
+    """RFC 3986 5.2.4: only the complete segment ".." removes the preceding segment (and only "." is dropped). A segment of three
+    or more dots is an ordinary name. The removal of the last written segment is therefore guarded by tests that pin the
+    segment to exactly two dots followed by a separator or the end."""
+    res.rule('C12.m', 'only the segment ".." removes its predecessor: in htp_normalize_uri_path_inplace every loop that takes the last written segment back (steps the write cursor down to the previous \'/\') is guarded by dot tests at the cursor and the cursor + 1 and a separator / end test at the cursor + 2 - or by an equality of a dot count with 2')
+    f = db.get('htp_normalize_uri_path_inplace')
+    n = 0
+    for h, body in C.loops(f):
+        dec = [u for bb in body for st in f.blocks[bb]['stmts'] for u in nodes(st, lambda y: y.get('k') == 'un' and y['op'] in ('--', '--post') and strip(y['e']).get('k') == 'var')]
+        c = f.cond_of(h)
+        conds = ' '.join(S(f.cond_of(bb)[0]) for bb in body if f.cond_of(bb))
+        if not dec or not c or ' - 1)] != 47' not in conds or len(body) > 8:
+            continue                                       # the back-up loop: while (w > 0 && data[w - 1] != '/') w--
+        n += 1
+        facts = [a for a, e in P.facts_at(f, h)]
+        dots = [a for a in facts if a[1] == '==' and a[2] in ('46', "'.'") and a[0].startswith('data[')]
+        end = [a for a in facts if (a[1] == '==' and a[2] in ('47', "'/'") and '+ 2' in a[0]) or (a[1] == '==' and '+ 2' in a[0] and a[2] == 'len')]
+        count2 = [a for a in facts if a[1] == '==' and a[2] == '2' and ' - ' in a[0]]
+        ok = (len({a[0] for a in dots}) >= 2 and end) or count2
+        res.check(bool(ok), 'C12.m', 'htp_normalize_uri_path_inplace:remove-last-segment@%s' % ('|'.join('%s%s%s' % a for a in facts[-1:])), 'guarded by exactly two dots and a separator / the end',
+                  'htp_normalize_uri_path_inplace takes the previous segment back under guards that do not pin the current segment to exactly ".." (%s): a segment of three or more dots behaves like "..", "/a/.../b" becomes "/b"' % facts[-3:], c[0].get('loc', f.loc))
+    res.floor('C12.m', 'remove-last-segment loops', n, 2)
